@@ -3,6 +3,7 @@ package props
 import (
 	"fmt"
 	"go/token"
+	"go/types"
 	"sort"
 	"strings"
 
@@ -61,6 +62,7 @@ func c12(r *core.Report, p *core.Prog, thorough bool) {
 	c12Writers(r, p)
 	c12Close(r, p)
 	c12Bookkeeping(r, p)
+	c12Removal(r, p)
 }
 
 // balanceDebit: st stores <X>.Balance = <X>.Balance - A (raw or MinusCoin) with A a Coin
@@ -471,4 +473,119 @@ func c12Bookkeeping(r *core.Report, p *core.Prog) {
 		}
 	}
 	r.Floor("C12.bookkeeping", "MovedBack/MovedToChallenge credits next to a mover call", n, 3)
+}
+
+// c12Removal: an entry of alloc.BlobberAllocs is overwritten (the blobber leaves the
+// open allocation) only after the challenge pool has been debited for that entry.
+func c12Removal(r *core.Report, p *core.Prog) {
+	r.Rule("C12.removal", "a store replacing an element of alloc.BlobberAllocs is reached only after the challenge pool was debited for the leaving entry (moveFromChallengePool of its ChallengePoolIntegralValue, or a payment helper given the pool and the entry); exempt: paths under the enterprise flag (enterprise allocations never fund a challenge pool: commit_connection rejects them)")
+	mv := p.Func("(*" + pkgStorage + ".storageAllocationBase).moveFromChallengePool")
+	if mv == nil {
+		r.Unresolved("C12.removal", "moveFromChallengePool")
+		return
+	}
+	isCP := func(t types.Type) bool { return strings.HasSuffix(core.NamedName(t), ".challengePool") }
+	n := 0
+	for _, fn := range p.ModFuncs() {
+		if fn.Pkg == nil || fn.Pkg.Pkg.Path() != pkgStorage || isTooling(p, fn) || !takesStateCtx(fn) {
+			continue
+		}
+		for _, b := range fn.Blocks {
+			for _, in := range b.Instrs {
+				st, ok := in.(*ssa.Store)
+				if !ok {
+					continue
+				}
+				ia, ok := st.Addr.(*ssa.IndexAddr)
+				if !ok {
+					continue
+				}
+				rt, pth := core.BaseObject(ia.X)
+				if !strings.HasSuffix(pth, ".BlobberAllocs") || core.ParamOf(rt) == nil {
+					continue
+				}
+				n++
+				// the leaving entry: loads of BlobberAllocs[idx] with the store's index
+				var isEntry func(v ssa.Value) bool
+				isEntry = func(v ssa.Value) bool {
+					ld, ok := v.(*ssa.UnOp)
+					if !ok || ld.Op != token.MUL {
+						return false
+					}
+					if al, isAl := ld.X.(*ssa.Alloc); isAl {
+						// the loop variable lives in a cell (captured by a closure)
+						sts := core.StoresTo(al)
+						if len(sts) == 0 {
+							return false
+						}
+						for _, sv := range sts {
+							if !isEntry(sv) {
+								return false
+							}
+						}
+						return true
+					}
+					ia2, ok := ld.X.(*ssa.IndexAddr)
+					if !ok || ia2.Index != ia.Index {
+						return false
+					}
+					rt2, pth2 := core.BaseObject(ia2.X)
+					return rt2 == rt && pth2 == pth
+				}
+				debits := map[ssa.Instruction]bool{}
+				for _, b2 := range fn.Blocks {
+					for _, in2 := range b2.Instrs {
+						c, ok := in2.(*ssa.Call)
+						if !ok {
+							continue
+						}
+						if c.Common().StaticCallee() == mv && len(c.Call.Args) == 3 {
+							if ld, ok := c.Call.Args[2].(*ssa.UnOp); ok && ld.Op == token.MUL {
+								if fa, ok := ld.X.(*ssa.FieldAddr); ok && core.FieldOf(fa) != nil && core.FieldOf(fa).Name() == "ChallengePoolIntegralValue" && isEntry(fa.X) {
+									debits[c] = true
+								}
+							}
+							continue
+						}
+						if c.Common().StaticCallee() == nil || c.Common().StaticCallee().Pkg == nil || c.Common().StaticCallee().Pkg.Pkg.Path() != pkgStorage {
+							continue
+						}
+						hasCP, hasEntry := false, false
+						for _, a := range c.Call.Args {
+							if isCP(a.Type()) {
+								hasCP = true
+							}
+							if isEntry(a) {
+								hasEntry = true
+							}
+						}
+						if hasCP && hasEntry {
+							debits[c] = true
+						}
+					}
+				}
+				flagOK := core.FlagConsistentEdges(st)
+				path, _, found := core.PathQuery{Fn: fn, Barrier: func(x ssa.Instruction) bool { return debits[x] },
+					EdgeOK: func(from *ssa.BasicBlock, i int) bool {
+						if !flagOK(from, i) {
+							return false
+						}
+						if ifi, ok := from.Instrs[len(from.Instrs)-1].(*ssa.If); ok {
+							c, taken := stripNot(ifi.Cond, i == 0)
+							if prm := core.ParamOf(c); prm != nil && taken && strings.Contains(strings.ToLower(prm.Name()), "enterprise") {
+								return false
+							}
+						}
+						return true
+					},
+					Target: func(x ssa.Instruction) bool { return x == ssa.Instruction(st) }}.Find()
+				d := fmt.Sprintf("%d debit sites for the entry", len(debits))
+				if found {
+					d = "the entry is replaced on a path that leaves its outstanding value in the pool: " + p.PathString(path)
+				}
+				r.Check(!found, "C12.removal", fmt.Sprintf("%s:replace#%d:pool-debited", fn.String(), n), posOf(p, st), d)
+			}
+		}
+	}
+	r.Floor("C12.removal", "stores replacing an element of alloc.BlobberAllocs", n, 1)
 }
